@@ -98,6 +98,9 @@ class Gen:
                     used.add(a)
                 elif form < 0.75:
                     s = r.sample(src, min(len(src), r.randint(2, 3)))
+                    nr = [g for g in self.prog["classes"].get("nr", []) if g not in used]
+                    if len(nr) >= 2 and r.random() < 0.6:
+                        s = nr  # the numbered run, written as a numeric range
                     b = r.choice(self.all_glyphs)
                     rules.append({"t": "single", "map": [[a, b] for a in s], "form": "cg"})
                     used.update(s)
@@ -293,6 +296,12 @@ class Gen:
         r = self.rng
         n = self.k["n_glyphs"]
         letters = [chr(ord("a") + i) for i in range(n)]
+        nums = []
+        if r.random() < 0.3:
+            # numbered glyphs: classes over them are written as numeric ranges that cross a power of ten, with ends that share
+            # their last digit (n09 - n19) or not (n08 - n13)
+            nums = [f"n{k:02d}" for k in range(8, 22)]
+            letters = letters + nums
         marks = ["m1", "m2", "m3"]
         ligs = ["l1", "l2"]
         glyphs = [".notdef"] + letters + marks + ligs
@@ -315,6 +324,9 @@ class Gen:
                 self.mark_classes.append(nm)
         for i in range(r.randint(0, self.k["n_classes"])):
             self.prog["classes"][f"c{i}"] = sorted(r.sample(letters[:7], r.randint(2, 3)), key=glyphs.index)
+        if nums:
+            lo = r.randint(0, 3)
+            self.prog["classes"]["nr"] = nums[lo:lo + 1 + r.choice([10, 10, 5, 8])]
         # mark classes for mark attachment positioning (each mark in at most one class)
         self.prog["markclasses"] = {}
         if self.prog["gdef"] and r.random() < 0.6:
@@ -485,8 +497,8 @@ def w_rule(r):
         if r["form"] == "gg":
             return f"sub {m[0][0]} by {m[0][1]};"
         if r["form"] == "cg":
-            return f"sub [{' '.join(a for a, _ in m)}] by {m[0][1]};"
-        return f"sub [{' '.join(a for a, _ in m)}] by [{' '.join(b for _, b in m)}];"
+            return f"sub [{w_members([a for a, _ in m])}] by {m[0][1]};"
+        return f"sub [{w_members([a for a, _ in m])}] by [{' '.join(b for _, b in m)}];"
     if t == "multi":
         return f"sub {r['from']} by {' '.join(r['to'])};"
     if t == "alt":
